@@ -5,6 +5,7 @@ import (
 	"crypto/sha256"
 	"encoding/hex"
 	"fmt"
+	"os"
 	"sort"
 
 	sdk "github.com/cosmos/cosmos-sdk/types"
@@ -120,7 +121,11 @@ func fmtDiff(diff []DiffEntry, max int) string {
 			break
 		}
 		kb, _ := hex.DecodeString(e.Key)
-		fmt.Fprintf(&b, "[%s] %q: %s -> %s\n", e.Store, printable(kb), firstN(e.Before, 80), firstN(e.After, 80))
+		n := 80
+		if os.Getenv("EXOSIM_FULL_DIFF") != "" {
+			n = 4000
+		}
+		fmt.Fprintf(&b, "[%s] %q: %s -> %s\n", e.Store, printable(kb), firstN(e.Before, n), firstN(e.After, n))
 	}
 	return b.String()
 }
